@@ -436,6 +436,36 @@ func genScenario(rng *RNG, errProne bool, maxBlocks int) azScenario {
 		sc.Token = append(sc.Token, g.block(false))
 	}
 	sc.Ops = g.authorizerOps()
+	if rng.Chance(35) {
+		// a derivation chain of depth 3-5 whose rules are supplied in random order, ending in a check or policy
+		depth := 3 + rng.Intn(3)
+		who := aStr(strPool[rng.Intn(len(strPool))])
+		names := []string{"lvl0", "lvl1", "lvl2", "lvl3", "lvl4", "lvl5"}
+		var rules []SRule
+		for i := 0; i < depth; i++ {
+			rules = append(rules, SRule{Head: SPred{Name: names[i+1], Terms: []STerm{aVar("u")}}, Body: []SPred{{Name: names[i], Terms: []STerm{aVar("u")}}}})
+		}
+		base := SPred{Name: "lvl0", Terms: []STerm{who}}
+		goal := SRule{Head: SPred{Name: "query"}, Body: []SPred{{Name: names[depth], Terms: []STerm{who}}}}
+		inToken := rng.Bool()
+		for _, i := range rng.Perm(depth) {
+			if inToken {
+				sc.Token[0].Rules = append(sc.Token[0].Rules, rules[i])
+			} else {
+				sc.Ops = append(sc.Ops, azOp{Kind: "rule", Rule: rules[i]})
+			}
+		}
+		if rng.Bool() {
+			sc.Token[0].Facts = dedupePreds(append(sc.Token[0].Facts, base))
+		} else {
+			sc.Ops = append(sc.Ops, azOp{Kind: "fact", Fact: base})
+		}
+		if rng.Bool() {
+			sc.Ops = append(sc.Ops, azOp{Kind: "check", Check: SCheck{goal}})
+		} else {
+			sc.Ops = append([]azOp{{Kind: "policy", Policy: SPolicy{Deny: rng.Chance(30), Queries: []SRule{goal}}}}, sc.Ops...)
+		}
+	}
 	sc.Ops = append(sc.Ops, azOp{Kind: "authorize"})
 	for i := rng.Intn(3); i > 0; i-- {
 		sc.Ops = append(sc.Ops, azOp{Kind: "query", Rule: g.pg.query(errProne)})
